@@ -708,3 +708,91 @@ def inline_new_helpers(tree, modname):
         return inl.inlined
     ast.fix_missing_locations(tree)
     return inl.inlined
+
+
+# -- constant dispatch tables ---------------------------------------------------------------------------------------
+class _NameSubst(ast.NodeTransformer):
+    def __init__(self, mapping):
+        self.mapping = mapping
+
+    def visit_Name(self, node):
+        if isinstance(node.ctx, ast.Load) and node.id in self.mapping:
+            return copy.deepcopy(self.mapping[node.id])
+        return node
+
+
+def unroll_constant_tables(tree):
+    """`for a, b in T: if <test>: <body>; break` -- a first-match search over a table T that is a tuple/list display of
+    equally long tuple displays (written in place or bound once, in the same function, to a local that is used nowhere else)
+    whose items are names, attributes or constants -- is the if/elif chain it abbreviates.  The loop is replaced, in place,
+    by that chain (loop targets substituted by the row's items) so that the rules, which read dispatch chains, see the
+    same program whichever way it is spelt.  Only done when the loop has no else clause, its body is that single if without
+    else ending in `break`, contains no other break/continue, and the targets are not used after the loop.  Returns the
+    number of loops rewritten."""
+    count = 0
+    for fn in [n for n in ast.walk(tree) if isinstance(n, (ast.FunctionDef, ast.AsyncFunctionDef))]:
+        for holder in ast.walk(fn):
+            for field in ("body", "orelse", "finalbody"):
+                stmts = getattr(holder, field, None)
+                if not isinstance(stmts, list):
+                    continue
+                for i, st in enumerate(list(stmts)):
+                    new = _unrolled(fn, st)
+                    if new is not None:
+                        stmts[stmts.index(st)] = new
+                        count += 1
+    if count:
+        ast.fix_missing_locations(tree)
+    return count
+
+
+def _unrolled(fn, st):
+    if not (isinstance(st, ast.For) and not st.orelse and len(st.body) == 1 and isinstance(st.body[0], ast.If) and not st.body[0].orelse):
+        return None
+    iff = st.body[0]
+    if not (iff.body and isinstance(iff.body[-1], ast.Break)):
+        return None
+    inner = iff.body[:-1]
+    if any(isinstance(x, (ast.Break, ast.Continue, ast.Yield, ast.YieldFrom, ast.Return)) for b in inner for x in ast.walk(b)) or not inner:
+        return None
+    tgt = st.target
+    names = [tgt.id] if isinstance(tgt, ast.Name) else ([e.id for e in tgt.elts] if isinstance(tgt, (ast.Tuple, ast.List))
+                                                        and all(isinstance(e, ast.Name) for e in tgt.elts) else None)
+    if not names:
+        return None
+    table = st.iter
+    binding = None
+    if isinstance(table, ast.Name):
+        defs = [a for a in ast.walk(fn) if isinstance(a, ast.Assign) and len(a.targets) == 1 and isinstance(a.targets[0], ast.Name)
+                and a.targets[0].id == table.id]
+        uses = [n for n in ast.walk(fn) if isinstance(n, ast.Name) and n.id == table.id]
+        if len(defs) != 1 or len(uses) != 2 or defs[0].lineno > st.lineno:
+            return None
+        binding = defs[0]
+        table = binding.value
+    if not isinstance(table, (ast.Tuple, ast.List)) or not table.elts or len(table.elts) > 12:
+        return None
+    rows = []
+    for row in table.elts:
+        items = [row] if isinstance(tgt, ast.Name) else (row.elts if isinstance(row, (ast.Tuple, ast.List)) else None)
+        if items is None or len(items) != len(names):
+            return None
+        for it in items:
+            if not isinstance(it, (ast.Name, ast.Attribute, ast.Constant)) or any(isinstance(x, ast.Call) for x in ast.walk(it)):
+                return None
+        rows.append(items)
+    # the loop targets must not be read after the loop or stored elsewhere
+    for n in ast.walk(fn):
+        if isinstance(n, ast.Name) and n.id in names and not (st.lineno <= n.lineno <= (st.end_lineno or st.lineno)):
+            return None
+    if any(isinstance(x, ast.Name) and isinstance(x.ctx, ast.Store) and x.id in names for b in iff.body for x in ast.walk(b)):
+        return None
+    chain = None
+    for items in reversed(rows):
+        sub = _NameSubst(dict(zip(names, items)))
+        test = sub.visit(copy.deepcopy(iff.test))
+        body = [sub.visit(copy.deepcopy(b)) for b in inner]
+        node = ast.If(test=test, body=body, orelse=[chain] if chain is not None else [])
+        ast.copy_location(node, st)
+        chain = node
+    return chain
